@@ -90,7 +90,12 @@ RichEnvelopeSet(z) ==
   LET Ts == {<<x>> : x \in NumsRich} \cup {<<x, y>> : x \in {"0.00005", "0.123456789"}, y \in NumsRich}
       Bs == {<<x>> : x \in NumsRich} \cup {<<"0.5", x, "0.30000000000000004">> : x \in NumsRich}
       S == {Sentence(W("a"), p, [k |-> "Eternal"], tr) : p \in {"Judgement", "Goal"}, tr \in Ts}
-  IN {AsSentence(s) : s \in S} \cup {AsTask(b, Sentence(IV("x"), "Judgement", [k |-> "Present"], <<"0.0000001", "0.9999999999999999">>)) : b \in Bs}
+      \* neighbouring doubles next to each other in one list (a formatter that reuses the previous number's text merges them)
+      Adj == {<<"1", "0.9999999999999999">>, <<"0.9999999999999999", "1">>, <<"0.30000000000000004", "0.3">>, <<"0.1", "0.10000000000000002">>, <<"0.5", "0.5000000000000001">>,
+              <<"0", "0.000000000000000000000000000000000000000000001">>}
+      SA == {Sentence(W("a"), "Judgement", [k |-> "Eternal"], tr) : tr \in Adj}
+  IN {AsSentence(s) : s \in SA} \cup {AsTask(<<tr[1], tr[2], tr[1]>>, Sentence(W("a"), "Goal", [k |-> "Eternal"], tr)) : tr \in Adj} \cup
+     {AsSentence(s) : s \in S} \cup {AsTask(b, Sentence(IV("x"), "Judgement", [k |-> "Present"], <<"0.0000001", "0.9999999999999999">>)) : b \in Bs}
      \cup {AsSentence(Sentence(W("a"), p, st, <<>>)) : p \in {"Judgement", "Quest"}, st \in StampsHuge}
 
 \* terms whose first / last token interacts with budgets, punctuation and bracket-less stamps
